@@ -227,6 +227,19 @@ static void c04_evaluation_length() {
   if (n > allowed + 1000) { c04_reported = 0; c04_report("evaluation", n, allowed); ev("HANG evaluation"); ev_flush(); _exit(75); }
 }
 static svalue_t *stackroom_saved = nullptr;
+// the shortage belongs to the evaluation it was injected into: when the driver starts the next one (first control frame
+// pushed on an empty control stack) the stack has its real size again
+static void stackroom_restore() { if (stackroom_saved) { end_of_stack = stackroom_saved; stackroom_saved = nullptr; } }
+extern "C" void __real_pop_control_stack(void);
+extern "C" void __wrap_pop_control_stack(void) {
+  __real_pop_control_stack();
+  if (csp < control_stack) stackroom_restore();       // the evaluation is over (returned, or unwound by error recovery)
+}
+extern "C" void __real_push_control_stack(int frkind);
+extern "C" void __wrap_push_control_stack(int frkind) {
+  if (csp < control_stack) stackroom_restore();
+  __real_push_control_stack(frkind);
+}
 static void instr_hook(int instruction) {
   (void)instruction;
   S.instr_total++;
@@ -388,7 +401,7 @@ static void sim_memstat() {
 void dump_users(const char *when);
 static long dump_users_every = 0;
 void invariants_at_cycle() {
-  if (stackroom_saved) { end_of_stack = stackroom_saved; stackroom_saved = nullptr; }
+  stackroom_restore();
   if (c08_walk_on && have_entry_any()) c08_walk();
   if (dump_users_every && have_entry) dump_users("cycle");
   if (!have_entry) { sp0 = sp; csp0 = csp; }
